@@ -220,13 +220,19 @@ def run(ck, m):
     n_cases = 0
     for f, t in cs or []:
         extra = set(f) - {A, T1, T2, EQ}
-        ck.expect(not extra and A in f, f"update_buffer: unexpected conditions in the output shape: {sorted(extra)}")
-        if extra or A not in f:
+        ck.expect(A in f, "update_buffer: `alpha` is not a condition of the output shape")
+        if A not in f:
             continue
+        if extra and not getattr(ck, "strict_self_contained", False):
+            # for C02 alone an emission that depends on more state (e.g. "skip the colour sequence if unchanged") is not decided here
+            ck.expect(False, f"update_buffer: unexpected conditions in the output shape: {sorted(extra)}")
+            continue
+        # further conditions (e.g. "only if the colour changed") are enumerated like the others: the table must hold in each of their cases -
+        # every run is emitted self-contained (the urwid canvas cuts lines at run boundaries and re-uses a run leader's colour sequences)
         n_cases += 1
         got = repr(t)
         al_, t1, t2, eq = f.get(A), f.get(T1), f.get(T2), f.get(EQ)
-        tag = f"alpha={al_}, upper transparent={t1}, lower transparent={t2}, halves equal={eq}"
+        tag = f"alpha={al_}, upper transparent={t1}, lower transparent={t2}, halves equal={eq}" + ("".join(f", {k[:40]}={v}" for k, v in sorted(f.items()) if k in extra))
         if al_ and t1 and t2:
             want, why = r"<SGR_DEFAULT> \(<blank>\)\{NVX\}", "both halves transparent: default attributes and blanks"
         elif al_ and t1:
@@ -295,6 +301,9 @@ def run(ck, m):
 
 
 MUTANTS = [
+    M("seek-shortcut", CM, "BaseImage._get_render_data", "        if self._is_animated:\n            img.seek(self._seek_position)\n", "        if self._is_animated and (frame or self._seek_position):\n            img.seek(self._seek_position)\n", {"R4"}),
+    M("memo-canvas", CM, "BaseImage._get_render_data", "                bg = Image.new(\"RGBA\", img.size, alpha)\n",
+      "                @lru_cache(maxsize=8)\n                def _bg_canvas(size_, color_):\n                    return Image.new(\"RGBA\", size_, color_)\n\n                bg = _bg_canvas(img.size, alpha)\n", {"MEMO"}),
     M("drop-disjunct", BL, "BlockImage._render_image", "                        or 0 == a_cluster2 != a2\n", "", {"R1"}),
     M("operand-slip", BL, "BlockImage._render_image", "or 0 == a_cluster2 != a2", "or 0 == a_cluster1 != a2", {"R1"}),
     M("sibling-copy", BL, "BlockImage._render_image", "or a_cluster2 != a2 == 0", "or a_cluster1 != a1 == 0", {"R1"}),
